@@ -275,7 +275,12 @@ func (e *Engine) freshVal(hint string, t types.Type, st *State) Val {
 }
 
 // assumeWF asserts the type invariants of v (slice header sanity, refs allocated, unsigned ranges).
-func (e *Engine) assumeWF(v Val, st *State) {
+func (e *Engine) assumeWF(v Val, st *State) { e.assumeWFb(v, st, nil) }
+
+// assumeWFb: bounds[i], when given, is the allocation counter below which the reference in leaf i must lie (a
+// reference read from a heap family that was last written when the counter was A is < A, so it cannot be an
+// object allocated later).
+func (e *Engine) assumeWFb(v Val, st *State, bounds []Term) {
 	if v.T == nil {
 		return
 	}
@@ -286,16 +291,23 @@ func (e *Engine) assumeWF(v Val, st *State) {
 		if isLiteralTerm(t) {
 			continue
 		}
+		var bound Term
+		if st != nil {
+			bound = st.alloc
+		}
+		if bounds != nil && bounds[i].S != "" {
+			bound = bounds[i]
+		}
 		switch l.Kind {
 		case lkRef:
-			if st != nil {
-				log.assert(and(app(SBool, "<=", intLit(0), t), app(SBool, "<", t, st.alloc)))
+			if bound.S != "" {
+				log.assert(and(app(SBool, "<=", intLit(0), t), app(SBool, "<", t, bound)))
 			} else {
 				log.assert(app(SBool, "<=", intLit(0), t))
 			}
 		case lkSliceArr:
-			if st != nil {
-				log.assert(and(app(SBool, "<=", intLit(0), t), app(SBool, "<", t, st.alloc)))
+			if bound.S != "" {
+				log.assert(and(app(SBool, "<=", intLit(0), t), app(SBool, "<", t, bound)))
 			}
 		case lkSliceOff:
 			log.assert(app(SBool, "<=", intLit(0), t))
